@@ -244,7 +244,7 @@ def prove(rep, nmfu, program, prop):
     """generate and discharge; returns the number of obligations"""
     fnode = program.proto.funcs.get(FNQ)
     if fnode is None:
-        rep.undecided_ob(f"{prop}/pyarr/{FNQ}/extraction", "function not found")
+        rep.unavailable(f"{prop}/pyarr/{FNQ}/extraction", "function not found")
         return 0
     rep.fn(FNQ)
     try:
@@ -259,7 +259,7 @@ def prove(rep, nmfu, program, prop):
         g.ob("post.denotation-is-the-symbol-set", z3.ForAll([u], res.payload(u) == z3.And(spec.InS(u), u != END)), "post")
         g.ob("vacuity.path-condition-satisfiable", z3.BoolVal(False), "cover")       # must be REFUTED: the hypotheses are consistent
     except Unsupported as e:
-        rep.undecided_ob(f"{prop}/pyarr/{FNQ}/engine", f"outside the modelled subset: {e}")
+        rep.unavailable(f"{prop}/pyarr/{FNQ}/engine", f"outside the modelled subset: {e}")
         return 0
     n = 0
     for ob, verdict, model, secs in pyarr.discharge(g.obs, timeout_ms=20000):
